@@ -667,6 +667,88 @@ def listenerRun : List LOp → ResLimiter → List String → Nat → List Strin
       | .errClient => "k"
     listenerRun os r.2 (s :: acc) fwd
 
+/-! ### the listener run as a sequence of admission attempts -/
+
+/-- one admission attempt as seen at a listener -/
+structure Atom where
+  a : Addr
+  cost : Nat
+  /-- what may have been charged in addition if it was admitted (the post-charge of a handled
+      query, whose verdict is ignored and therefore not observable) -/
+  post : Nat
+  admitted : Bool
+  deriving DecidableEq, Repr
+
+def Point.post (p : Point) : Nat := if p.onAllowed = .handle then costFromUpstream else 0
+
+/-- one attempt at admission point `p` on the model (no concurrency cap involved) -/
+def attempt (l : ResLimiter) (p : Point) (a : Addr) : Atom × ResLimiter :=
+  let r := admission l p false a 0
+  if r.1 = .handle then (⟨a, p.cost, p.post, true⟩, postCharge r.2 false a 0)
+  else if r.1 = .serve then (⟨a, p.cost, p.post, true⟩, r.2)
+  else (⟨a, p.cost, p.post, false⟩, r.2)
+
+def queryAtoms (p : Point) (a : Addr) : Nat → ResLimiter → List Atom × ResLimiter
+  | 0, l => ([], l)
+  | k + 1, l =>
+    let x := attempt l p a
+    let xs := queryAtoms p a k x.2
+    (x.1 :: xs.1, xs.2)
+
+/-- connection-level admission point (if any), query-level point, number of queries -/
+def LOp.points : LOp → Option (Addr × Option Point × Point × Nat)
+  | .udp a => some (a, none, .udpQuery, 1)
+  | .tcp a k => some (a, some .tcpConn, .tcpQuery, k)
+  | .http a k => some (a, some .httpConn, .httpQuery, k)
+  | .quic a k => some (a, some .quicConn, .quicQuery, k)
+  | .direct _ _ => none
+
+/-- the attempts of one op -/
+def opAtoms (l : ResLimiter) (op : LOp) : List Atom × ResLimiter :=
+  match op with
+  | .direct a n =>
+    let r := limiterAllowN l a 0 n
+    ([⟨a, n, 0, decide (r.1 = .ok)⟩], r.2)
+  | .udp a => queryAtoms .udpQuery a 1 l
+  | .tcp a k =>
+    let x := attempt l .tcpConn a
+    if x.1.admitted then let xs := queryAtoms .tcpQuery a k x.2; (x.1 :: xs.1, xs.2) else ([x.1], x.2)
+  | .http a k =>
+    let x := attempt l .httpConn a
+    if x.1.admitted then let xs := queryAtoms .httpQuery a k x.2; (x.1 :: xs.1, xs.2) else ([x.1], x.2)
+  | .quic a k =>
+    let x := attempt l .quicConn a
+    if x.1.admitted then let xs := queryAtoms .quicQuery a k x.2; (x.1 :: xs.1, xs.2) else ([x.1], x.2)
+
+/-- all attempts of a run, in order -/
+def listenerAtoms : List LOp → ResLimiter → List Atom
+  | [], _ => []
+  | op :: ops, l =>
+    let r := opAtoms l op
+    r.1 ++ listenerAtoms ops r.2
+
+/-- the attempts an observed outcome string stands for (`none`: not an outcome of this op) -/
+def obsAtoms (op : LOp) (out : String) : Option (List Atom) :=
+  match op with
+  | .direct a n =>
+    if out == "o" then some [⟨a, n, 0, true⟩] else if out == "k" then some [⟨a, n, 0, false⟩] else none
+  | _ =>
+    match op.points with
+    | none => none
+    | some (a, conn, q, k) =>
+      let refusedCh := match q with
+        | .httpQuery => '5'
+        | .quicQuery => 'x'
+        | _ => 'r'
+      let qs := out.toList.mapM fun ch =>
+        if ch == 'o' then some (⟨a, q.cost, q.post, true⟩ : Atom)
+        else if ch == refusedCh then some ⟨a, q.cost, q.post, false⟩ else none
+      match conn with
+      | none => if out.length ≤ k then qs else none
+      | some pc =>
+        if out == "c" then some [⟨a, pc.cost, pc.post, false⟩]
+        else if out.length ≤ k then qs.map fun xs => ⟨a, pc.cost, pc.post, true⟩ :: xs else none
+
 /-- per subnet: the cost that was certainly admitted (`lo`) and the cost that may have been
     charged at most (`hi`: every answered query may have been charged `costFromUpstream` more) -/
 abbrev Usage := List (Addr × Nat × Nat)
@@ -681,51 +763,54 @@ def Usage.add (c : Opts) (u : Usage) (a : Addr) (dlo dhi : Nat) : Usage :=
   | [] => [(a, dlo, dhi)]
   | (b, lo, hi) :: rest => if specSame c a b then (b, lo + dlo, hi + dhi) :: rest else (b, lo, hi) :: Usage.add c rest a dlo dhi
 
-/-- The property on an observed listener run without a global limit, for a run shorter
+/-- The property on the attempts of a listener run without a global limit, for a run shorter
     than one second at 1 token/s (nothing refills):
-    * a query that was refused got REFUSED / 503 (DoQ: its stream closed) and was not forwarded — the upstream saw
-      exactly the answered queries;
     * the cost certainly admitted for one subnet never exceeds the burst;
     * nobody is refused while the most that can have been charged to his own subnet, plus
-      the cost of this admission, is within the burst. -/
-def listenerSpecOps (c : Opts) (burst : Nat) : List LOp → List String → Usage → Bool
-  | [], [], _ => true
-  | op :: ops, out :: outs, u =>
-    let (a, connCost, qCost, refusedCh) := match op with
-      | .udp a => (a, 0, costUDPQuery, 'r')
-      | .tcp a _ => (a, costTCPConn, costTCPQuery, 'r')
-      | .http a _ => (a, costTCPConn, costHTTPQuery, '5')
-      | .quic a _ => (a, costQuicConn, costQUICQuery, 'x')
-      | .direct a n => (a, 0, n, 'k')
-    let isDirect := match op with
-      | .direct _ _ => true
-      | _ => false
-    let step (st : Bool × Usage) (ch : Char) : Bool × Usage :=
-      let (ok, u) := st
-      let (lo, hi) := Usage.get c u a
-      if ch == 'o' then
-        (ok && decide (lo + qCost ≤ burst), Usage.add c u a qCost (qCost + (if isDirect then 0 else costFromUpstream)))
-      else if ch == refusedCh then
-        (ok && decide (hi + qCost > burst), u)
-      else (false, u)
-    if out == "c" then
-      -- the connection was refused at accept
-      let (_, hi) := Usage.get c u a
-      decide (connCost > 0) && decide (hi + connCost > burst) && listenerSpecOps c burst ops outs u
+      the cost of this attempt, is within the burst;
+    * a peer without an address (unix socket) is not limited. -/
+def atomsSpec (c : Opts) (burst : Nat) : List Atom → Usage → Bool
+  | [], _ => true
+  | x :: xs, u =>
+    if x.a = .zero then x.admitted && atomsSpec c burst xs u
     else
-      let (lo, _) := Usage.get c u a
-      let okConn := decide (lo + connCost ≤ burst)
-      let u := if connCost > 0 then Usage.add c u a connCost connCost else u
-      let r := out.toList.foldl step (true, u)
-      okConn && r.1 && listenerSpecOps c burst ops outs r.2
-  | _, _, _ => false
+      let r := Usage.get c u x.a
+      if x.admitted then
+        decide (r.1 + x.cost ≤ burst) && atomsSpec c burst xs (Usage.add c u x.a x.cost (x.cost + x.post))
+      else decide (r.2 + x.cost > burst) && atomsSpec c burst xs u
 
+/-- the queries that were handed to `handleServerReq` -/
+def handledCount (xs : List Atom) : Nat := (xs.filter fun x => x.admitted && decide (x.post > 0)).length
+
+/-- The property on an observed listener run: the attempts satisfy `atomsSpec`, and a query
+    that was refused (REFUSED / 503 / stream closed) was not forwarded — the upstream saw
+    exactly the answered queries. -/
 def listenerSpec (c : Opts) (burst : Nat) (ops : List LOp) (outs : List String) (fwd : Nat) : Bool :=
-  let answered := ((ops.zip outs).map fun (op, s) =>
-    match op with
-    | .direct _ _ => 0
-    | _ => (s.toList.filter (· == 'o')).length).sum
-  fwd == answered && listenerSpecOps c burst ops outs []
+  if ops.length != outs.length then false else
+  match (ops.zip outs).mapM fun (op, out) => obsAtoms op out with
+  | none => false
+  | some xss =>
+    let xs := xss.flatten
+    fwd == handledCount xs && atomsSpec c burst xs []
+
+/-- how an op's attempts show at the client -/
+def renderOp (op : LOp) (xs : List Atom) : String :=
+  let ch (refused : Char) (x : Atom) : Char := if x.admitted then 'o' else refused
+  match op, xs with
+  | .direct _ _, [x] => if x.admitted then "o" else "k"
+  | .udp _, xs => String.ofList (xs.map (ch 'r'))
+  | .tcp _ _, x :: xs => if x.admitted then String.ofList (xs.map (ch 'r')) else "c"
+  | .http _ _, x :: xs => if x.admitted then String.ofList (xs.map (ch '5')) else "c"
+  | .quic _ _, x :: xs => if x.admitted then String.ofList (xs.map (ch 'x')) else "c"
+  | _, _ => "?"
+
+/-- the model's run without a global limit: outcomes per op and the number of forwards -/
+def listenerRunAtoms : List LOp → ResLimiter → List String × Nat
+  | [], _ => ([], 0)
+  | op :: ops, l =>
+    let r := opAtoms l op
+    let rest := listenerRunAtoms ops r.2
+    (renderOp op r.1 :: rest.1, handledCount r.1 + rest.2)
 
 /-- Direct calls of `limiterAllowN` with a global limit of `g` tokens (rate = burst = g, no
     refill during the case): "only the global limit is shared" —
@@ -755,7 +840,8 @@ def runListener (case impl : String) : String × String :=
   | some g, some b, some m4, some ops =>
     let c : Opts := ⟨1, b, m4, 0⟩
     let l := ResLimiter.init ⟨g, c⟩
-    let (outs, fwd) := listenerRun ops l [] 0
+    -- with a global limit (direct calls only in the generated cases) the verdict kinds matter: `listenerRun`
+    let (outs, fwd) := if g > 0 then listenerRun ops l [] 0 else listenerRunAtoms ops l
     let m := s!"r={",".intercalate outs} fwd={fwd}"
     let itoks := words impl
     let v := match kvGet itoks "r", kvNat itoks "fwd" with
